@@ -300,13 +300,57 @@ func C01(p *core.Program, r *core.Report) {
 	r.NotCovered = "termination (pointer-chasing loops, the i-- removal loops, recursion depth on deep documents need a ranking argument), relational index arithmetic on offsets stored in struct fields (pagination/pattern: not claimed), nil maps and nil non-Node pointers, panics inside third-party code and the standard library, memory exhaustion."
 
 	reach := p.ReachableFrom(p.EntryPoints()...)
+	// the units of analysis: every reachable module function that is not an unexported helper,
+	// with its unexported helpers expanded (a site inside a helper is then judged in the context
+	// of its callers, and extracting or inlining helpers does not move or rename any site)
 	var fns []*ssa.Function
+	nReach := 0
 	for _, fn := range p.ModFunctions(false) {
 		if reach[fn] {
-			fns = append(fns, fn)
+			nReach++
+			if !core.Transparent(fn) {
+				fns = append(fns, p.Inlined(fn))
+			}
 		}
 	}
-	r.Stats["reachable_module_functions"] = len(fns)
+	r.Stats["reachable_module_functions"] = nReach
+	r.Stats["analysis_units"] = len(fns)
+	// closures are named after the unit whose (expanded) body creates them, not after the
+	// unexported helper they happen to be written in
+	unitNames := map[*ssa.Function]string{}
+	for _, u := range fns {
+		if p.Original(u).Parent() != nil {
+			continue
+		}
+		for k, cl := range closuresOf(u) {
+			if _, ok := unitNames[cl]; !ok {
+				unitNames[cl] = fmt.Sprintf("%s/closure#%d", core.ShortKey(u), k+1)
+			}
+		}
+	}
+	for changed := true; changed; {
+		changed = false
+		for _, u := range fns {
+			o := p.Original(u)
+			if o.Parent() == nil {
+				continue
+			}
+			if base, ok := unitNames[o]; ok {
+				for k, cl := range closuresOf(u) {
+					if _, ok := unitNames[cl]; !ok {
+						unitNames[cl] = fmt.Sprintf("%s/closure#%d", base, k+1)
+						changed = true
+					}
+				}
+			}
+		}
+	}
+	unitName := func(fn *ssa.Function) string {
+		if n, ok := unitNames[p.Original(fn)]; ok {
+			return n
+		}
+		return core.ShortKey(fn)
+	}
 	c := core.NewCanon(p)
 
 	// ---- T1
@@ -340,7 +384,7 @@ func C01(p *core.Program, r *core.Report) {
 					if ci, ok := d.(ssa.CallInstruction); ok {
 						what = "passed to " + core.ShortKey(core.Callee(ci)) + " (dereferences it without a nil test)"
 					}
-					key := fmt.Sprintf("%s: %s may be nil", core.ShortKey(fn), c.Of(v))
+					key := fmt.Sprintf("%s: %s may be nil", unitName(fn), c.Of(v))
 					if seenKey[key] {
 						continue
 					}
@@ -390,6 +434,9 @@ func C01(p *core.Program, r *core.Report) {
 						continue
 					}
 					bs := c.Of(bound)
+					if strings.HasPrefix(bs, "μ(") {
+						continue // a loop-carried offset: index arithmetic, not a cross-object length (not claimed)
+					}
 					// the bound mentions len(Y) of a value that is not X
 					m := regexp.MustCompile(`len\(`).FindAllStringIndex(bs, -1)
 					for _, ix := range m {
@@ -398,7 +445,7 @@ func C01(p *core.Program, r *core.Report) {
 							continue // the same object (or its loop-carried self): a truncation, not a cross-object bound
 						}
 						nT2++
-						key := fmt.Sprintf("%s: %s sliced at len(%s)", core.ShortKey(fn), shortVal(xs), shortVal(arg))
+						key := fmt.Sprintf("%s: %s sliced at len(%s)", unitName(fn), shortVal(xs), shortVal(arg))
 						// guards: HasPrefix(X, Y) (case-sensitive) true edge, or len(X) < len(Y) false edge
 						re := regexp.MustCompile(`^strings\.HasPrefix\(` + regexp.QuoteMeta(xs) + `,` + regexp.QuoteMeta(arg) + `\)$`)
 						cut1, m1 := core.CutAtoms(p, fn, re, true)
@@ -425,7 +472,7 @@ func C01(p *core.Program, r *core.Report) {
 						continue
 					}
 					nT3++
-					r.Add("T3", fmt.Sprintf("%s: assertion %s", core.ShortKey(fn), shortVal(c.Of(x))), p.Pos(x.Pos()), false, "single-result type assertion panics on another dynamic type")
+					r.Add("T3", fmt.Sprintf("%s: assertion %s", unitName(fn), shortVal(c.Of(x))), p.Pos(x.Pos()), false, "single-result type assertion panics on another dynamic type")
 				case *ssa.BinOp:
 					if x.Op != token.QUO && x.Op != token.REM {
 						continue
@@ -440,9 +487,9 @@ func C01(p *core.Program, r *core.Report) {
 					ys := c.Of(x.Y)
 					cut, m := core.CutAtoms(p, fn, regexp.MustCompile(`^`+regexp.QuoteMeta(ys)+` == 0$`), false)
 					ok := len(m) > 0 && !core.InstrReachable(fn, cut, x)
-					r.Add("T3", fmt.Sprintf("%s: division by %s", core.ShortKey(fn), shortVal(ys)), p.Pos(x.Pos()), ok, "the divisor must be tested against 0 on every path")
+					r.Add("T3", fmt.Sprintf("%s: division by %s", unitName(fn), shortVal(ys)), p.Pos(x.Pos()), ok, "the divisor must be tested against 0 on every path")
 				case *ssa.Go:
-					r.Add("T6", core.ShortKey(fn)+": go statement", p.Pos(x.Pos()), false, "a panic or fatal error (concurrent map writes) in a goroutine cannot be recovered by the caller of Apply")
+					r.Add("T6", unitName(fn)+": go statement", p.Pos(x.Pos()), false, "a panic or fatal error (concurrent map writes) in a goroutine cannot be recovered by the caller of Apply")
 				case *ssa.IndexAddr, *ssa.Index:
 					var xv, idx ssa.Value
 					if ia, ok := x.(*ssa.IndexAddr); ok {
@@ -462,7 +509,7 @@ func C01(p *core.Program, r *core.Report) {
 					}
 					nT3++
 					xs := c.Of(xv)
-					key := fmt.Sprintf("%s: %s[%d]", core.ShortKey(fn), shortVal(xs), k)
+					key := fmt.Sprintf("%s: %s[%d]", unitName(fn), shortVal(xs), k)
 					ok, why := constIndexSafe(p, fn, in, xs, k, rxGroups)
 					r.Add("T3", key, p.Pos(in.Pos()), ok, why)
 				}
@@ -475,7 +522,7 @@ func C01(p *core.Program, r *core.Report) {
 
 	// ---- T4
 	checkPlaceholderBalance(p, r, "T4")
-	if nr := mustFunc(p, r, "T4", "(*"+docfilterPkg+".NestedElementRetainer).Process"); nr != nil {
+	if nr := mustInl(p, r, "T4", "(*"+docfilterPkg+".NestedElementRetainer).Process"); nr != nil {
 		// the pop happens only for end tags
 		found := false
 		for _, b := range nr.Blocks {
@@ -490,7 +537,7 @@ func C01(p *core.Program, r *core.Report) {
 	}
 
 	// ---- T5
-	if ap := mustFunc(p, r, "T5", core.ModPath+".Apply"); ap != nil {
+	if ap := mustInl(p, r, "T5", core.ModPath+".Apply"); ap != nil {
 		for _, ret := range core.Returns(ap) {
 			res, errv := ret.Results[0], ret.Results[1]
 			if core.IsNilConst(res) {
@@ -533,13 +580,13 @@ func C01(p *core.Program, r *core.Report) {
 		}
 		r.Add("T5", "Apply: extraction starts from an element (the given one or the first element below it)", p.Pos(ap.Pos()), bad == 0 && len(paths) >= 3, fmt.Sprintf("%d paths, %d start extraction without an element root", len(paths), bad))
 	}
-	if ne := mustFunc(p, r, "T5", extractorPkg+".NewContentExtractor"); ne != nil {
+	if ne := mustInl(p, r, "T5", extractorPkg+".NewContentExtractor"); ne != nil {
 		// document falls back to the given root
 		ok := false
 		for _, a := range allocsOf(ne, "/internal/extractor", "ContentExtractor") {
 			fs := fieldStores(a)
-			if len(fs["documentElement"]) == 1 {
-				ok = c.Of(fs["documentElement"][0]) == `μ($0|dom.QuerySelector($0,"html"))`
+			if len(fs["‹*html.Node›"]) == 1 {
+				ok = c.Of(fs["‹*html.Node›"][0]) == `μ($0|dom.QuerySelector($0,"html"))`
 			}
 		}
 		r.Add("T5", "the extractor falls back to the given root when there is no <html>", p.Pos(ne.Pos()), ok, "")
